@@ -320,6 +320,10 @@ func charCellFamily(a *Args) error {
 	cells = append(cells, syntheticCells()...)
 	sort.Slice(cells, func(i, j int) bool { return cells[i].name < cells[j].name })
 	thorough := a.Tier == "thorough"
+	only := ""
+	if strings.HasPrefix(a.Extra, "cell=") {
+		only = strings.TrimPrefix(a.Extra, "cell=")
+	}
 	var mu sync.Mutex
 	nexec := 0
 	parallel(len(behs), 16, func(bi int) {
@@ -345,21 +349,25 @@ func charCellFamily(a *Args) error {
 		n := 0
 		for ci, cl := range cells {
 			// sampling: every single-step word on every cell; longer words on a seeded share of the cells
-			if len(steps) > 1 && !thorough && config == nil {
+			if only != "" {
+				if cl.name != only {
+					continue
+				}
+			} else if len(steps) > 1 && !thorough && config == nil {
 				h := fnv.New32a()
 				fmt.Fprintf(h, "%d/%d/%s", a.Seed, b.ID, cl.name)
 				if h.Sum32()%12 != 0 {
 					continue
 				}
 			}
-			if config != nil {
+			if config != nil && only == "" {
 				// an attack word travels with the cell configuration it needs: synthetic cells of that shape only
 				if !strings.HasPrefix(cl.name, "synthetic/") {
 					continue
 				}
 			}
 			ls := runCellWord(b, steps, cl, int(a.Seed)+ci)
-			if config != nil && len(ls) > 0 {
+			if config != nil && only == "" && len(ls) > 0 {
 				if ls[0]["fmt"] != config.Fmt || strings.Join(ls[0]["perms"].([]string), "+") != strings.Join(config.Perms, "+") {
 					continue
 				}
